@@ -72,11 +72,20 @@ impl FromStr for Decimal {
           / 10u128
             .checked_pow(u32::try_from(trailing_zeros).unwrap())
             .context("excessive trailing zeros")?;
-        (decimal, u8::try_from(significant_digits).unwrap())
+        (
+          decimal,
+          u8::try_from(significant_digits)
+            .ok()
+            .context("excessive precision")?,
+        )
       };
 
       Ok(Self {
-        value: integer * 10u128.pow(u32::from(scale)) + decimal,
+        value: 10u128
+          .checked_pow(u32::from(scale))
+          .and_then(|magnitude| integer.checked_mul(magnitude))
+          .and_then(|value| value.checked_add(decimal))
+          .context("decimal out of range")?,
         scale,
       })
     } else {
